@@ -22,14 +22,15 @@ def vtidx(i): return Agg('VehicleTypeIdx', None, [bv(i, 'u16')])
 def didx(i): return Agg('DepotIdx', None, [bv(i, 'u16')])
 def lidx(i): return Agg('LocationIdx', None, [bv(i, 'u16')])
 def vehidx(i, dummy=False): return Agg('VehicleIdx', 1 if dummy else 0, [bv(i, 'u16')])
-def station(e): return Agg('Location', 0, [Agg('LocationIdx', None, [Scalar(e if isinstance(e, z3.ExprRef) else z3.IntVal(e), 'u16')])])
+def station(e): return Agg('Location', 0, [Agg('LocationIdx', None, [Scalar(e, 'u16')])])
 def nowhere(): return Agg('Location', 1, [])
-def dt_point(days, sec): return Agg('DateTime', 1, [S('TimePoint', days=Scalar(_z(days), 'u64'), seconds=Scalar(_z(sec), 'u32'))])
-def dur(sec): return Agg('Duration', 0, [S('DurationLength', seconds=Scalar(_z(sec), 'u64'))])
+def dt_point(days, sec): return Agg('DateTime', 1, [S('TimePoint', days=Scalar(_c(days), 'u64'), seconds=Scalar(_c(sec), 'u32'))])
+def dur(sec): return Agg('Duration', 0, [S('DurationLength', seconds=Scalar(_c(sec), 'u64'))])
 def dur_inf(): return Agg('Duration', 1, [])
-def dist(m): return Agg('Distance', 0, [Scalar(_z(m), 'u64')])
+def dist(m): return Agg('Distance', 0, [Scalar(_c(m), 'u64')])
 def dist_inf(): return Agg('Distance', 1, [])
 def _z(x): return x if isinstance(x, z3.ExprRef) else z3.IntVal(x)
+def _c(x): return norm(x)
 def opt_none(): return Agg('Option', 0, [])
 
 class Spec:
@@ -93,10 +94,10 @@ def build(ex, spec):
                 if a == 'none': allowed.entries.append((vtidx(t), Cell(opt_none()))); ainfo[t] = ('none',)
                 elif a == 'sym':
                     cv = sym('depot%d_cap_vt%d' % (i, t), 'u32', spec.capmax)
-                    allowed.entries.append((vtidx(t), Cell(some(Scalar(cv, 'u32'))))); ainfo[t] = ('some', cv)
+                    allowed.entries.append((vtidx(t), Cell(some(Scalar(_c(cv), 'u32'))))); ainfo[t] = ('some', cv)
                 else: allowed.entries.append((vtidx(t), Cell(some(bv(a, 'u32'))))); ainfo[t] = ('some', z3.IntVal(a))
         dep = S('Depot', idx=didx(i), id=StrVal('OVERFLOW_DEPOT' if overflow else 'dep%d' % i), location=loc,
-                total_capacity=Scalar(capterm, 'u32'), allowed_types=allowed)
+                total_capacity=Scalar(_c(capterm), 'u32'), allowed_types=allowed)
         sd = nidx('StartDepot', counter); ed = nidx('EndDepot', counter + 1)
         for kind, ni, c in (('StartDepot', sd, counter), ('EndDepot', ed, counter + 1)):
             dn = S('DepotNode', depot_idx=didx(i), location=loc, id=StrVal(('s_' if kind == 'StartDepot' else 'e_') + dep.fields[STRUCTS['Depot'].index('id')].text))
@@ -125,7 +126,7 @@ def build(ex, spec):
         else: limit = some(bv(lim, 'u32')); linfo = (z3.BoolVal(True), z3.IntVal(lim))
         arr = ex.call('<DateTime as Add<Duration>>::add', [dt_point(0, dep), dur(du)])
         st = S('ServiceTrip', id=StrVal('trip%d' % i), vehicle_type=vtidx(vt), origin=station(o), destination=station(d), departure=dt_point(0, dep),
-               arrival=arr, distance=dist(dm), passengers=Scalar(px, 'u32'), seated=Scalar(se, 'u32'), maximal_formation_count=limit)
+               arrival=arr, distance=dist(dm), passengers=Scalar(_c(px), 'u32'), seated=Scalar(_c(se), 'u32'), maximal_formation_count=limit)
         ni = nidx('Service', i)
         nodes.entries.append((ni, Cell(Agg('Node', 1, [tup(ni, st)]))))
         info[i] = dict(kind='Service', n=i, idx=ni, vt=vt, o=o, d=d, st=dep, et=dep + du, dur=du, dist=dm, pax=px, seated=se, limit=linfo, id='trip%d' % i, sloc=o, eloc=d)
@@ -159,7 +160,7 @@ def build(ex, spec):
     shmin = sym('sh_min', 'u64', spec.shmax); shdht = sym('sh_dht', 'u64', spec.shmax)
     maxdist = sym('maint_maxdist', 'u64', spec.maxdist_max) if spec.maxdist == 'sym' else z3.IntVal(spec.maxdist)
     cs = spec.costs
-    config = S('Config', forbid_dead_head_trip=Scalar(forbid, 'bool'), day_limit_threshold=dur(0),
+    config = S('Config', forbid_dead_head_trip=Scalar(_c(forbid), 'bool'), day_limit_threshold=dur(0),
                shunting=S('ShuntingConfig', minimal=dur(shmin), dead_head_trip=dur(shdht)),
                maintenance=S('MaintenanceConfig', maximal_distance=dist(maxdist)),
                costs=S('CostsConfig', staff=bv(cs[0], 'u64'), service_trip=bv(cs[1], 'u64'), maintenance=bv(cs[2], 'u64'), dead_head_trip=bv(cs[3], 'u64'), idle=bv(cs[4], 'u64')))
